@@ -82,9 +82,9 @@ func (c cfgT) substitute(s string) string {
 // ---- expression grammar ---------------------------------------------------------------------------
 
 type gen struct {
-	t        *rapid.T
-	c        cfgT
-	usesPh   bool
+	t      *rapid.T
+	c      cfgT
+	usesPh bool
 }
 
 func (g *gen) num() string {
